@@ -173,6 +173,10 @@ class Tr:
             return self.lift1(lambda y: f(a.term, y), b)
         if b.kind == COEF:
             return self.lift1(lambda x: f(x, b.term), a)
+        if a.kind == DVEC and b.kind == CH1:       # (D, ...) op (1, ...): the singleton axis broadcasts over the D entries
+            return self.lift1(lambda x: f(x, b.term), a)
+        if a.kind == CH1 and b.kind == DVEC:
+            return self.lift1(lambda y: f(a.term, y), b)
         if a.kind == b.kind and a.kind in (CVEC, DVEC):
             x, y = self.fresh(), self.fresh()
             return V(a.kind, f"(map2 (fun {x} {y} => {f(x, y)}) {a.term} {b.term})")
@@ -307,6 +311,19 @@ class Tr:
             if any(i.kind != CH1 for i in items):
                 raise self.err("concatenate of kinds " + str([i.kind for i in items]))
             return V(CHN, "[" + "; ".join(i.term for i in items) + "]")
+        if fn == "jnp.where":
+            # jnp.where(x == 0, a, b) on one mode: x of shape (...) / (1, ...), a and b scalars or of the same shape
+            if e.keywords or len(e.args) != 3 or not (isinstance(e.args[0], ast.Compare) and len(e.args[0].ops) == 1
+                                                       and isinstance(e.args[0].ops[0], ast.Eq)
+                                                       and isinstance(e.args[0].comparators[0], ast.Constant)
+                                                       and e.args[0].comparators[0].value == 0
+                                                       and not isinstance(e.args[0].comparators[0].value, bool)):
+                raise self.err("jnp.where form " + src)
+            x = self.expr(e.args[0].left, env)
+            a, b = self.expr(e.args[1], env), self.expr(e.args[2], env)
+            if x.kind not in (MODE, CH1) or any(v.kind not in (COEF, x.kind) for v in (a, b)):
+                raise self.err(f"jnp.where on kinds {x.kind}, {a.kind}, {b.kind}")
+            return V(x.kind, f"(if oeqb {x.term} o0 then {a.term} else {b.term})")
         if fn == "sum":
             if e.keywords or len(e.args) != 1 or not isinstance(e.args[0], ast.GeneratorExp):
                 raise self.err("sum form " + src)
@@ -406,7 +423,12 @@ class Tr:
                 if p not in h["defaults"]:
                     raise self.err(f"argument {p} missing in " + ast.unparse(e))
                 vals[p] = h["defaults"][p]
-            if kind == NAT:
+            if kind == NAT and isinstance(vals[p], ast.Name) and vals[p].id in env and env[vals[p].id].kind == NAT:
+                for g in h["guards"]:            # the caller inherits the guard of the helper
+                    if g[0] == "parity" and g[1] == p:
+                        self.guards.append(("parity", vals[p].id, g[2]))
+                args.append(env[vals[p].id].term)
+            elif kind == NAT:
                 a = vals[p]
                 if not (isinstance(a, ast.Constant) and isinstance(a.value, int) and not isinstance(a.value, bool) and a.value >= 0):
                     raise self.err(f"`{p}` of {fn} must be a literal: " + ast.unparse(e))
@@ -536,6 +558,78 @@ def translate_helper(fn, helpers):
                   else f"  (* raises unless len({g[1]}) = len({g[2]}) *)\n" for g in tr.guards)
     text = f"{pre}  Definition gen_{fn.name} {params} : {COQTYPE[ret]} :=\n    {body.term}."
     return text, dict(pos=pos, kwonly=kwonly, kinds=kinds, defaults=defaults, guards=tr.guards, ret=ret)
+
+
+# ---- make_incompressible (_spectral.py) and Poisson (_poisson.py): the per-mode arithmetic between fft and ifft ----------------------
+def same_stmt(node, text):
+    return ast.unparse(node) == ast.unparse(ast.parse(text).body[0])
+
+
+def translate_make_incompressible(tree, helpers):
+    fn = find_func(tree.body, "make_incompressible")
+    body = strip_doc(fn.body)
+    head = ["channel_shape = field.shape[0]", "spatial_shape = field.shape[1:]", "num_spatial_dims = len(spatial_shape)"]
+    if not all(same_stmt(a, b) for a, b in zip(body[:3], head)):
+        raise TranslationError("make_incompressible: shape statements")
+    g = body[3]
+    if not (isinstance(g, ast.If) and ast.unparse(g.test) == "channel_shape != num_spatial_dims" and len(g.body) == 1
+            and isinstance(g.body[0], ast.Raise) and not g.orelse):
+        raise TranslationError("make_incompressible: channel guard")
+    mid = body[4:]
+    want = {0: "num_points = spatial_shape[0]",
+            1: "derivative_operator = build_derivative_operator(num_spatial_dims, 1.0, num_points, indexing=indexing)",
+            2: "incompressible_field_hat = fft(field, num_spatial_dims=num_spatial_dims)"}
+    for i, w in want.items():
+        if not same_stmt(mid[i], w):
+            raise TranslationError("make_incompressible statement: " + ast.unparse(mid[i]))
+    tail = ["incompressible_field = ifft(incompressible_field_hat, num_spatial_dims=num_spatial_dims, num_points=num_points)",
+            "return incompressible_field"]
+    if not all(same_stmt(a, b) for a, b in zip(mid[-2:], tail)):
+        raise TranslationError("make_incompressible: inverse transform / return")
+    env = {"derivative_operator": V(DVEC, "d"), "incompressible_field_hat": V(DVEC, "u")}
+    tr = Tr("make_incompressible", env, helpers, "d", allow_raise=False)
+    out = tr.block(list(mid[3:-2]) + [ast.parse("return incompressible_field_hat").body[0]], env)
+    if out.kind != DVEC:
+        raise TranslationError("make_incompressible: result kind " + out.kind)
+    return ("  (* make_incompressible: one mode, d = derivative operator at domain extent 1, u = the D velocity coefficients; the channel\n"
+            "     count must equal the number of axes (guard) *)\n"
+            f"  Definition gen_make_incompressible (d u : list K) : list K :=\n    {out.term}.")
+
+
+def translate_poisson(helpers):
+    tree = ast.parse(open(os.path.join(REPO, "exponax/_poisson.py")).read())
+    cls = [n for n in tree.body if isinstance(n, ast.ClassDef) and n.name == "Poisson"]
+    if len(cls) != 1:
+        raise TranslationError("class Poisson not found")
+    init = find_func(cls[0].body, "__init__")
+    if [a.arg for a in init.args.args] != ["self", "num_spatial_dims", "domain_extent", "num_points"] or [a.arg for a in init.args.kwonlyargs] != ["order"]:
+        raise TranslationError("Poisson.__init__ signature")
+    ib = strip_doc(init.body)
+    i0 = [i for i, st in enumerate(ib) if same_stmt(st, "derivative_operator = build_derivative_operator(num_spatial_dims, domain_extent, num_points)")]
+    if len(i0) != 1 or i0[0] != len(ib) - 3:
+        raise TranslationError("Poisson.__init__: derivative operator statement")
+    last = ib[-1]
+    if not (isinstance(last, ast.Assign) and ast.unparse(last.targets[0]) == "self._inv_operator"):
+        raise TranslationError("Poisson.__init__: _inv_operator")
+    env = {"derivative_operator": V(DVEC, "d"), "order": V(NAT, "order")}
+    tr = Tr("Poisson.__init__", env, helpers, "d", allow_raise=False)
+    inv = tr.block([ib[-2], ast.Return(value=last.value)], env)
+    if inv.kind != CH1:
+        raise TranslationError("Poisson._inv_operator kind " + inv.kind)
+    sf = strip_doc(find_func(cls[0].body, "step_fourier").body)
+    if len(sf) != 1 or not isinstance(sf[0], ast.Return):
+        raise TranslationError("Poisson.step_fourier")
+    env2 = {"self._inv_operator": V(CH1, "inv"), "f_hat": V(CH1, "f")}        # one channel of f_hat at one mode
+    tr2 = Tr("Poisson.step_fourier", env2, helpers, "d", allow_raise=False)
+    out = tr2.block(sf, env2)
+    st = strip_doc(find_func(cls[0].body, "step").body)
+    want = ["f_hat = fft(f, num_spatial_dims=self.num_spatial_dims)", "u_hat = self.step_fourier(f_hat)",
+            "u = ifft(u_hat, num_spatial_dims=self.num_spatial_dims, num_points=self.num_points)", "return u"]
+    if len(st) != 4 or not all(same_stmt(a, b) for a, b in zip(st, want)):
+        raise TranslationError("Poisson.step")
+    pre = "".join(f"  (* raises unless {g[1]} % 2 = {g[2]} *)\n" for g in tr.guards if g[0] == "parity")
+    return (f"{pre}  Definition gen_poisson_inv_operator (d : list K) (order : nat) : K :=\n    {inv.term}.\n"
+            f"  Definition gen_poisson_step_fourier (inv f : K) : K :=\n    {out.term}.")
 
 
 # ---- classes ------------------------------------------------------------------------------------------------
@@ -680,6 +774,8 @@ def generate():
         text, info = translate_helper(find_func(tree.body, h), helpers)
         helpers[h] = info
         parts.append(text)
+    parts.append(translate_make_incompressible(tree, helpers))
+    parts.append(translate_poisson(helpers))
     classes = stepper_classes()
     unknown = sorted(set(classes) - set(COVER) - set(EXCLUDED))
     if unknown:
